@@ -576,6 +576,9 @@ func (fc *FCtx) evalIndex(e *ast.IndexExpr, st *State, commaOk bool) []Val {
 		in := fmt.Sprintf("(select %s %s)", mpDom(base), idx.T)
 		et := elemType(base.GoT)
 		v := Val{T: ite(in, fmt.Sprintf("(select %s %s)", mpVal(base), idx.T), fc.zeroTerm(base.S.Elem, et)), S: base.S.Elem, GoT: et}
+		if et != nil {
+			st.assume(fc.U.WF(v)) // type invariant of the stored value (machine-integer ranges of its fields)
+		}
 		if commaOk {
 			return []Val{v, {T: in, S: SBool, GoT: types.Typ[types.Bool]}}
 		}
